@@ -4,12 +4,13 @@ TLC design level : Timing.tla (the Waiter as coded: cached clock, one clock read
                    from the runtime's own reading, IsSlowDown, the decide/shoot/discard steps of instance.Run,
                    one or two instances on a shared schedule, responses 0/5/25/35 ticks, Tick anywhere within a
                    budget of "lazy" ticks), exhaustive for the prompt machine and for the descheduled one,
-                   liveness under weak fairness, + four negative controls that must produce counterexamples
-                   (stale cached clock = the shipped defect, wrong threshold, skipped sleep, strong iff under
+                   liveness under weak fairness, + five negative controls that must produce counterexamples
+                   (stale cached clock = the shipped defect, wrong threshold, skipped sleep, overdue not reset, strong iff under
                    descheduling).
 M2 (spec->code)  : TLC -simulate produces robust timing scripts (token instants, response per token, expected
-                   decision and predicted lateness per token); `vdrive timing` runs them in real time, in
-                   parallel, through cli.readConfig -> engine.Run -> instance.Run -> coreutil.Waiter.
+                   decision and predicted lateness per token; a second family with a descheduling of 3/6 ticks
+                   between Next() and the Waiter's clock reading, which the harness injects); `vdrive timing` runs
+                   them in real time, in parallel, through cli.readConfig -> engine.Run -> instance.Run -> Waiter.
 M1 (code->spec)  : random response histories against real pandora schedules (const/line/step/once+const), same
                    path.  TraceTiming.tla decides every logged token and run with the operators of Timing.tla.
 """
@@ -34,7 +35,7 @@ MANIFEST = dict(
          "predicates judge every token of real runs (real engine, real Waiter, config decoded by cli.readConfig incl. "
          "the discard_overflow default) from two stamps that bracket the Waiter's clock reading, so a scheduling delay "
          "can only relax a rule, never break it.",
-    note="bounds: 3-4 tokens, gaps {0,1,3,5} ticks, responses {0,5,25,35} ticks, <= 2 instances, lazy-tick budget 2 (22 in "
+    note="bounds: 3-4 tokens, gaps {0,1,3,5,30} ticks, responses {0,5,25,35} ticks, <= 2 instances, lazy-tick budget 2 (22 in "
          "thorough); real time: scripts <= 8 s, 100 ms tick; trusted: the recording mocks (Schedule wrapper, gun, "
          "aggregator) and goroutine-id tagging; `>=` vs `>` at exactly 2.000000 s is not observable in real time "
          "(decided at design level only).",
@@ -287,7 +288,7 @@ def run(tier, v):
         "exhaustive": False,
     }
     return "model_checking", cov, [
-        "exhaustive TLC bounds: 3 tokens (4 in thorough), gaps {0,1,3,5} ticks, responses {0,5,25,35} ticks, 1-2 instances, "
+        "exhaustive TLC bounds: 3 tokens (4 in thorough), gaps {0,1,3,5,30} ticks, responses {0,5,25,35} ticks, 1-2 instances, "
         "lazy-tick budget 2 with one instance (2 with two instances and 22 with one instance in thorough)",
         "real-time runs: the two one-sided discard rules are judged from stamps that bracket the Waiter's clock reading; "
         "the exact boundary (lateness within the [a,b] interval / +-1 ms of 2 s) is decided at design level only",
